@@ -131,7 +131,8 @@ def _cases_for(tier, salt):
                                 out.append(dict(model="Whitener", salt=salt, shape=[n, p], cond=cond, cplx=cplx, alpha=alpha, backend=be, schunks=sch, units=units))
     # ---- PCA
     fracs = [(0.9, 0.3), (0.9, 1.0)] if tier == "quick" else [(0.5, 0.3), (0.5, 1.0), (0.9, 0.3), (0.9, 1.0), (0.99, 1.0)]
-    for (n, p) in _shapes(tier):
+    # (60, 6), thorough also (80, 8): tall and skinny (n >= 10 p) - the corner where a Gram-matrix shortcut would be tempting
+    for (n, p) in _shapes(tier) + ([(80, 8), (120, 12)] if tier == "quick" else [(60, 6), (80, 8), (120, 12), (200, 16)]):
         for cond in conds:
             for cplx in (False, True):
                 specs = [("int", k, 0.3) for k in range(1, p + 1)] + [("all", "all", 0.3)] + [("float", f, irr) for (f, irr) in fracs]
